@@ -646,3 +646,263 @@ Example ex_serve_hyps :
   mem_bytes [] [JSON_MIME; ex_text_plain] = false /\ ~ In [] [ex_text_plain_utf8; JSON_MIME] /\
   (In JSON_MIME [ex_text_plain_utf8; JSON_MIME] \/ normalize_offer JSON_MIME = JSON_MIME).
 Proof. split; [reflexivity|]. split; [intros [H|[H|[]]]; discriminate | left; right; now left]. Qed.
+
+
+(* ---- security requirements with several alternatives ---- *)
+(* the marker once the basic scheme was consulted (b) on a request carrying marker m *)
+Definition mark (s : sec_cfg) (b : bool) (m : bytes) : bytes :=
+  if b && attempt_fails (sec_attempt s) then effective_realm (sec_realm s) else m.
+
+Definition alt_res (s : sec_cfg) (alt : list sec_scheme) : sec_res :=
+  if forallb (scheme_accepts s) alt then SOk
+  else match alt_error s alt with Some c => SErr c | None => SNotApplies end.
+
+Lemma mark_mark s b1 b2 m : mark s b1 (mark s b2 m) = mark s (b1 || b2) m.
+Proof. unfold mark. destruct b1, b2, (attempt_fails (sec_attempt s)); reflexivity. Qed.
+
+Lemma mark_false s m : mark s false m = m.
+Proof. reflexivity. Qed.
+
+Lemma run_alt_eq s alt : forall m,
+  run_alt s alt m = (alt_res s alt, mark s (basic_consulted_in s alt) m).
+Proof.
+  induction alt as [|x r IH]; intros m; [reflexivity|].
+  cbn [run_alt]. unfold alt_res. cbn [forallb alt_error basic_consulted_in]. unfold scheme_accepts at 1.
+  destruct x as [|k].
+  - (* the basic scheme *)
+    unfold marker_after_scheme, scheme_res, basic_marker, mark. cbn [andb].
+    pose proof (effective_realm_nonempty (sec_realm s)) as Hne.
+    destruct (sec_attempt s) eqn:Ea; cbn [attempt_fails andb];
+      try (destruct (effective_realm (sec_realm s)); [congruence | reflexivity]).
+    rewrite IH. unfold alt_res, mark. rewrite Ea. cbn [attempt_fails]. now rewrite andb_false_r.
+  - cbn [marker_after_scheme]. destruct k as [|c|]; cbn [scheme_res andb].
+    + reflexivity.
+    + reflexivity.
+    + rewrite IH. unfold alt_res. unfold scheme_accepts at 3. cbn [scheme_res andb]. reflexivity.
+Qed.
+
+Lemma alt_admits_res s alt : alt <> [] -> alt_admits s alt = match alt_res s alt with SOk => true | _ => false end.
+Proof.
+  intros Hne. unfold alt_admits, alt_res. destruct alt as [|x r]; [congruence|].
+  destruct (forallb (scheme_accepts s) (x :: r)); [reflexivity|].
+  destruct (alt_error s (x :: r)); reflexivity.
+Qed.
+
+Lemma alt_res_err s alt c : alt_res s alt = SErr c -> alt_error s alt = Some c.
+Proof.
+  unfold alt_res. destruct (forallb (scheme_accepts s) alt); [discriminate|].
+  destruct (alt_error s alt); [intros H; inversion H; reflexivity | discriminate].
+Qed.
+
+Lemma alt_res_na s alt : alt_res s alt = SNotApplies -> alt_error s alt = None.
+Proof.
+  unfold alt_res. destruct (forallb (scheme_accepts s) alt); [discriminate|].
+  destruct (alt_error s alt); [discriminate | reflexivity].
+Qed.
+
+Definition or_last {A} (x last : option A) : option A := match x with Some y => Some y | None => last end.
+
+(* RouteAuthenticators.Authenticate and Authorize, said at once *)
+Definition alts_answer (s : sec_cfg) (alts : list (list sec_scheme)) (last : option nat) (anon : bool) (m : bytes)
+  : bool * nat * bytes :=
+  let m' := mark s (existsb (basic_consulted_in s) (examined s alts)) m in
+  if existsb (alt_admits s) alts then (true, 0, m')
+  else match or_last (last_some (map (alt_error s) alts)) last with
+       | Some c => (false, c, m')
+       | None => if anon || existsb is_anonymous alts then (true, 0, m') else (false, 401, m')
+       end.
+
+Lemma run_alts_eq s alts : forall last anon m,
+  run_alts s alts last anon m = alts_answer s alts last anon m.
+Proof.
+  induction alts as [|a r IH]; intros last anon m.
+  - unfold alts_answer. cbn [run_alts existsb examined map last_some or_last]. rewrite mark_false, orb_false_r.
+    destruct last; reflexivity.
+  - destruct a as [|x a'].
+    + (* the anonymous alternative *)
+      cbn [run_alts]. rewrite IH. unfold alts_answer.
+      cbn [existsb examined alt_admits map last_some alt_error basic_consulted_in is_anonymous orb].
+      rewrite orb_true_r.
+      destruct (existsb (alt_admits s) r); [reflexivity|].
+      destruct (last_some (map (alt_error s) r)); reflexivity.
+    + remember (x :: a') as a eqn:Ea.
+      assert (Hne : a <> []) by (subst a; discriminate).
+      assert (Hstep : run_alts s (a :: r) last anon m =
+                match run_alt s a m with
+                | (SOk, m') => (true, 0, m')
+                | (SErr c, m') => run_alts s r (Some c) anon m'
+                | (SNotApplies, m') => run_alts s r last anon m'
+                end) by (subst a; reflexivity).
+      rewrite Hstep. clear Hstep. rewrite run_alt_eq.
+      unfold alts_answer. cbn [existsb examined map last_some].
+      rewrite (alt_admits_res s a Hne).
+      assert (Han : is_anonymous a = false) by (subst a; reflexivity). rewrite Han. cbn [orb].
+      destruct (alt_res s a) as [|c|] eqn:Er.
+      * (* does not apply *)
+        rewrite IH. unfold alts_answer. rewrite mark_mark. rewrite (alt_res_na _ _ Er).
+        cbn [existsb orb].
+        rewrite (orb_comm (existsb (basic_consulted_in s) (examined s r))).
+        destruct (existsb (alt_admits s) r); [reflexivity|].
+        destruct (last_some (map (alt_error s) r)); reflexivity.
+      * (* an error *)
+        rewrite IH. unfold alts_answer. rewrite mark_mark. rewrite (alt_res_err _ _ _ Er).
+        cbn [existsb orb].
+        rewrite (orb_comm (existsb (basic_consulted_in s) (examined s r))).
+        destruct (existsb (alt_admits s) r); [reflexivity|].
+        destruct (last_some (map (alt_error s) r)); reflexivity.
+      * cbn [existsb orb]. rewrite orb_false_r. reflexivity.
+Qed.
+
+Lemma last_some_none s alts :
+  last_some (map (alt_error s) alts) = None <->
+  forallb (fun a => match alt_error s a with None => true | Some _ => false end) alts = true.
+Proof.
+  induction alts as [|a r IH]; cbn [map last_some forallb]; [tauto|].
+  destruct (last_some (map (alt_error s) r)) as [y|].
+  - split; [discriminate|]. intros H. apply andb_true_iff in H. destruct H as [_ H]. apply IH in H. discriminate.
+  - rewrite (proj1 IH eq_refl), andb_true_r. destruct (alt_error s a); split; congruence.
+Qed.
+
+(* the pipeline behind any security requirement, in the vocabulary of the property: admitted requests go on
+   to validation and the handler, refused ones are answered with the last error met (401 when none), and
+   the marker is the effective realm exactly when a basic-auth attempt failed on the way *)
+Theorem serve_sec_eq d registered rt specs head s result :
+  serve_sec d registered rt specs head s result =
+  if sec_admitted s
+  then serve_validated d registered rt specs head (sec_challenge_realm s) result
+  else serve_respond d registered rt specs head None (sec_challenge_realm s) (DError (sec_refusal_code s)).
+Proof.
+  unfold serve_sec, sec_admitted, sec_challenge_realm, sec_refusal_code.
+  destruct (sec_alts s) as [|a r] eqn:Ea; [reflexivity|].
+  rewrite run_alts_eq. unfold alts_answer. fold (mark s (existsb (basic_consulted_in s) (examined s (a :: r))) []).
+  unfold or_last. cbn [orb].
+  destruct (existsb (alt_admits s) (a :: r)); [reflexivity|]. cbn [orb].
+  destruct (last_some (map (alt_error s) (a :: r))) as [c|] eqn:El.
+  - assert (forallb (fun a0 => match alt_error s a0 with None => true | Some _ => false end) (a :: r) = false) as F.
+    { destruct (forallb _ (a :: r)) eqn:E; [|reflexivity]. apply last_some_none in E. congruence. }
+    rewrite F, andb_false_r. reflexivity.
+  - rewrite (proj1 (last_some_none s (a :: r)) El), andb_true_r.
+    destruct (existsb is_anonymous (a :: r)); reflexivity.
+Qed.
+
+(* the one-scheme requirement of the earlier cases is the special case *)
+Theorem serve_sec_single_basic d registered rt specs head a result :
+  serve_sec d registered rt specs head (sec_of_auth a) result = serve d registered rt specs head a result.
+Proof.
+  destruct a as [|realm attempt code]; [reflexivity|].
+  unfold serve_sec, sec_of_auth. cbn [sec_alts run_alts run_alt marker_after_scheme scheme_res sec_realm sec_attempt sec_errcode].
+  destruct attempt; cbn [basic_marker serve];
+    try (destruct (effective_realm realm) eqn:E; [exfalso; eapply effective_realm_nonempty; eassumption | reflexivity]).
+Qed.
+
+(* wherever the basic scheme stands: once it was consulted in an examined alternative and did not accept,
+   a refused request is answered with the challenge *)
+Theorem sec_refused_challenge d registered rt specs head s result :
+  sec_admitted s = false ->
+  existsb (basic_consulted_in s) (examined s (sec_alts s)) = true -> sec_attempt s <> GoodCreds ->
+  exists r, serve_sec d registered rt specs head s result = Responded r /\
+            o_www r = Some (challenge (effective_realm (sec_realm s))) /\
+            o_error r = Some (sec_refusal_code s) /\ o_producer r = None.
+Proof.
+  intros Hadm Hc Ha. rewrite serve_sec_eq, Hadm. unfold sec_challenge_realm. rewrite Hc.
+  assert (attempt_fails (sec_attempt s) = true) as -> by (destruct (sec_attempt s); try reflexivity; congruence).
+  cbn [andb]. unfold serve_respond, respond.
+  pose proof (effective_realm_nonempty (sec_realm s)) as Hne.
+  destruct (effective_realm (sec_realm s)) as [|b m] eqn:E; [congruence|].
+  eexists. split; [reflexivity|]. cbn [o_www o_error o_producer]. repeat split; reflexivity.
+Qed.
+
+(* ... and when the basic scheme was not consulted, or accepted, no challenge is given *)
+Theorem sec_no_attempt_no_challenge d registered rt specs head s result r :
+  sec_challenge_realm s = [] ->
+  serve_sec d registered rt specs head s result = Responded r -> o_www r = None.
+Proof.
+  intros Hm. rewrite serve_sec_eq, Hm.
+  assert (G : forall dt, respond d registered (rt_produces rt) (Some rt) None specs head [] dt = Responded r -> o_www r = None).
+  { intros dt. unfold respond.
+    set (format := response_format None specs (respond_offers d (rt_produces rt))).
+    destruct dt as [c|c|].
+    - destruct (route_or_default registered d rt (normalize_offer format)); [|discriminate]. intros H; inversion H; reflexivity.
+    - intros H; inversion H; reflexivity.
+    - unfold respond_plain. destruct (rt_has_op rt); simpl.
+      + destruct (success_code (rt_codes rt)) as [sc|]; [|intros H; inversion H; reflexivity].
+        destruct (Nat.eqb sc 204 || head); [intros H; inversion H; reflexivity|].
+        destruct (route_or_default registered d rt (normalize_offer format)); [|discriminate]. intros H; inversion H; reflexivity.
+      + destruct head; [intros H; inversion H; reflexivity|].
+        destruct (producers_for registered _ _); [|discriminate]. intros H; inversion H; reflexivity. }
+  destruct (sec_admitted s).
+  - unfold serve_validated, serve_respond.
+    destruct (negotiate_content_type specs (rt_produces rt) []); [destruct (rt_produces rt)|]; apply G.
+  - unfold serve_respond. apply G.
+Qed.
+
+Lemma serve_validated_meets d registered rp codes specs head marker dt tag :
+  Forall spec_ok specs -> mem_bytes [] registered = false -> ~ In [] rp -> (In d rp \/ normalize_offer d = d) ->
+  (if acceptable specs rp
+   then true && respond_prop registered (negotiated specs (respond_offers d rp)) (negotiated_or_json specs (respond_offers d rp))
+                             (Some codes) true head marker dt tag
+                             (obs_of (serve_validated d registered (mkroute rp true codes) specs head marker dt) tag)
+   else negb false && respond_prop registered (negotiated specs (respond_offers d rp)) (negotiated_or_json specs (respond_offers d rp))
+                             (Some codes) true head marker (DError 406) tag
+                             (obs_of (serve_validated d registered (mkroute rp true codes) specs head marker dt) tag)) = true.
+Proof.
+  intros Hs Hne Hrp Hd. unfold serve_validated. cbn [rt_produces].
+  pose proof (refused_iff_unacceptable specs rp Hs Hrp) as R.
+  destruct (negotiate_content_type specs rp []) as [|b f]; [destruct rp as [|o r]|]; rewrite R; cbn [andb negb];
+    now apply serve_respond_meets.
+Qed.
+
+(* one request through the handler of an operation with any security requirement, every input: the model's
+   answer and its decision whether the handler runs satisfy the property predicate of the check *)
+Theorem serve_sec_meets_property d registered rp codes specs head s dt tag :
+  Forall spec_ok specs -> mem_bytes [] registered = false -> ~ In [] rp -> (In d rp \/ normalize_offer d = d) ->
+  sec_prop d registered rp codes specs head s dt tag (sec_admitted s && acceptable specs rp)
+           (obs_of (serve_sec d registered (mkroute rp true codes) specs head s dt) tag) = true.
+Proof.
+  intros Hs Hne Hrp Hd. unfold sec_prop. rewrite serve_sec_eq.
+  destruct (sec_admitted s); cbn [andb].
+  - pose proof (serve_validated_meets d registered rp codes specs head (sec_challenge_realm s) dt tag Hs Hne Hrp Hd) as V.
+    destruct (acceptable specs rp); exact V.
+  - cbn [negb andb]. now apply serve_respond_meets.
+Qed.
+
+(* ---- histories on one Context ---- *)
+Theorem history_stateless d registered qs n q :
+  nth_error qs n = Some q -> nth_error (serve_history d registered qs) n = Some (serve_req d registered q).
+Proof. intros H. unfold serve_history. now apply map_nth_error. Qed.
+
+Theorem history_prefix_irrelevant d registered pre pre' q :
+  nth_error (serve_history d registered (pre ++ [q])) (length pre) =
+  nth_error (serve_history d registered (pre' ++ [q])) (length pre').
+Proof.
+  unfold serve_history. rewrite !map_app.
+  rewrite !nth_error_app2 by (rewrite map_length; lia). rewrite !map_length, !Nat.sub_diag. reflexivity.
+Qed.
+
+Definition hreq_ok (d : bytes) (q : hreq) : Prop :=
+  Forall spec_ok (hq_specs q) /\ rt_has_op (hq_route q) = true /\ ~ In [] (rt_produces (hq_route q)) /\
+  (In d (rt_produces (hq_route q)) \/ normalize_offer d = d).
+
+Theorem history_meets_property d registered qs tags :
+  mem_bytes [] registered = false -> Forall (hreq_ok d) qs -> length tags = length qs ->
+  Forall2 (fun qt o => req_prop d registered (fst qt) (snd qt) (req_runs (fst qt)) (obs_of o (snd qt)) = true)
+          (combine qs tags) (serve_history d registered qs).
+Proof.
+  intros Hne Hq. revert tags. induction Hq as [|q r Hq _ IH]; intros tags Hl.
+  - destruct tags; [constructor | discriminate].
+  - destruct tags as [|t ts]; [discriminate|]. cbn [combine serve_history map]. constructor.
+    + cbn [fst snd]. destruct Hq as [H1 [H2 [H3 H4]]]. unfold req_prop, req_runs, serve_req.
+      destruct (hq_route q) as [rp op codes]. cbn [rt_has_op rt_produces rt_codes] in *. subst op.
+      now apply serve_sec_meets_property.
+    + apply IH. simpl in Hl. lia.
+Qed.
+
+Example ex_basic_first_then_key :
+  let s := mksec [118] BadCreds 401 [[SBasic]; [SKey KeyAbsent]] in
+  sec_admitted s = false /\ sec_refusal_code s = 401 /\ sec_challenge_realm s = [118].
+Proof. vm_compute. repeat split; reflexivity. Qed.
+
+Example ex_key_admits_after_failed_basic :
+  let s := mksec [] NoCreds 401 [[SKey (KeyBad 403); SBasic]; [SBasic; SKey KeyGood]; [SKey KeyGood]] in
+  sec_admitted s = true /\ sec_challenge_realm s = API_REALM.
+Proof. vm_compute. split; reflexivity. Qed.
